@@ -137,7 +137,21 @@ pub fn gen(rng: &mut Rng, focus: Focus) -> ClientScn {
     // a burst: dozens of calls queued before the dispatch first runs, with room for all of them
     // (one poll of the dispatch then has dozens of things to do)
     let burst = focus == Focus::General && rng.chance(30);
-    let n_calls = if burst { rng.range(33, 70) as usize } else { rng.range(1, 8) as usize };
+    // ... sometimes followed by tearing the whole client down at once: every call future dropped
+    // and then the last handle, with dozens of requests in flight
+    let teardown_burst = burst && rng.chance(300);
+    // ... or answered out of order around a head-of-line straggler: the first call(s) get their
+    // reply long after dozens of later ones
+    let straggler_burst = burst && !teardown_burst && rng.chance(400);
+    let n_calls = if teardown_burst {
+        rng.range(64, 140) as usize
+    } else if straggler_burst {
+        rng.range(66, 140) as usize
+    } else if burst {
+        rng.range(33, 70) as usize
+    } else {
+        rng.range(1, 8) as usize
+    };
     let handles = rng.range(1, 3) as usize;
     let small = [1usize, 2, 3];
     let max_in_flight = if burst {
@@ -284,6 +298,43 @@ pub fn gen(rng: &mut Rng, focus: Focus) -> ClientScn {
             }
         }
     }
+    if straggler_burst {
+        let stragglers = rng.range(1, 3) as usize;
+        let skip_answer = rng.range(0, 3) as usize; // a few later calls are never answered
+        for (i, c) in calls.iter_mut().enumerate() {
+            c.abandon = None;
+            c.deadline = Dl::Ms(10_000);
+            c.start_ms = 0;
+            let _ = i;
+        }
+        for (i, p) in plans.iter_mut().enumerate() {
+            *p = if i < stragglers {
+                vec![ReplyScn { when: When::After(rng.range(25, 40)), id: IdKind::Same, err: false }]
+            } else if i + skip_answer >= n_calls {
+                vec![]
+            } else {
+                vec![ReplyScn { when: When::After(rng.range(0, 12)), id: IdKind::Same, err: rng.chance(100) }]
+            };
+        }
+        stalls.clear();
+        drop_handles_at = None;
+        kill_dispatch_at = None;
+        peer_eof_at = None;
+    }
+    if teardown_burst {
+        // everything is dropped within the same millisecond: all call futures, then the handles
+        let at = rng.range(2, 6);
+        for c in calls.iter_mut() {
+            c.abandon = Some(Ab::AtMs(at.saturating_sub(c.start_ms)));
+            c.deadline = Dl::Ms(10_000);
+        }
+        stalls.clear();
+        // (the harness lets go of its own handles a moment earlier, so that the last call
+        // future to go is also the last handle)
+        drop_handles_at = Some(at - 1);
+        kill_dispatch_at = None;
+        peer_eof_at = None;
+    }
     let subscriber = match focus {
         Focus::Extreme => rng.below(3) as u8,
         // a log-only (formatting) subscriber: spans are enabled but not backed by OpenTelemetry
@@ -329,7 +380,7 @@ pub fn gen(rng: &mut Rng, focus: Focus) -> ClientScn {
     ClientScn {
         max_in_flight,
         pending_buf,
-        link: LinkCfg { cap, coupled, sticky: faults.is_empty() || rng.chance(600), faults },
+        link: LinkCfg { cap, coupled, sticky: faults.is_empty() || rng.chance(600), faults, explicit_flush: coupled && cap > 0 && rng.chance(300) },
         stalls,
         handles,
         calls,
